@@ -118,7 +118,8 @@ func (cred *etcdCredentials) Password() string {
 }
 
 func parseCredentials(creds string) (string, string, error) {
-	parts := strings.Split(creds, ":")
+	// only the user-id cannot contain a colon, the password can (RFC 7617)
+	parts := strings.SplitN(creds, ":", 2)
 	if len(parts) < 2 {
 		return "", "", fmt.Errorf("bad format")
 	}
